@@ -7,13 +7,14 @@ GENERATED = []
 SOURCES = ["src/allmydata/immutable/downloader/node.py", "src/allmydata/immutable/downloader/fetcher.py",
            "src/allmydata/immutable/downloader/finder.py", "src/allmydata/immutable/downloader/segmentation.py"]
 DESIGN_REF = "DESIGN.md §2 C03/C46, Appendix A.4, §3 row C46"
-TECHNIQUE = ("Lean 4 theorems (11) over executable models of the DownloadNode segment queue (_segment_requests, _active_segment, "
+TECHNIQUE = ("Lean 4 theorems (12) over executable models of the DownloadNode segment queue (_segment_requests, _active_segment, "
              "get_segment, _start_new_segment, got_shares, no_more_shares, fetch_failed, process_blocks success and failure "
              "branch, _cancel_request) on the SegmentFetcher event system, of Segmentation (one read: _maybe_fetch_next, "
              "_got_segment incl. WrongSegmentError, _retry_bad_segment, _request_retired on every outcome, stop/pause/resume) and "
              "of the composed system Sys (reads routed through the node with explicit _deliver events): no_stuck_state, "
              "later_reads_progress, do_loop_terminates, read_never_idle, read_terminates_when_answered, bad_segnum_retry, "
-             "read_writes_exact_range, waiting_read_request_is_routed, every_read_terminates (end to end: every quiescent state "
+             "read_writes_exact_range, waiting_read_request_is_routed, every_read_terminates_with_finder_partial (the real finder "
+             "routed into the composed system SysF, tied by `sysf` scripts; its noMore clause still a hypothesis), every_read_terminates (end to end: every quiescent state "
              "of the composed system has every read's Deferred fired), idle_fetcher_has_asked_for_more, and the proved "
              "counterexample unfixed_stuck_counterexample for the failure branch before fix 6853eb2; differential correspondence "
              "of seeded scripts against the real DownloadNode + SegmentFetcher (fake shares, stubbed decode), the real "
@@ -29,7 +30,9 @@ LEVEL_TEXT = ("Termination is proved as a safety property, end to end for the co
               "tied to node.py / fetcher.py / segmentation.py by comparing queue, active fetcher, retirements, fetcher internals "
               "and every read's state after every event of seeded scripts.  Below the composed system: the finder's contract is "
               "proved for a separate ShareFinder model (C03.finder_answers_every_hungry, with idle_fetcher_has_asked_for_more as "
-              "the fetcher's half) but not composed into Sys; that every get_block gets a terminal event (share.py) is an "
+              "the fetcher's half); the finder IS composed executably (SysF, tied against real DownloadNode + real ShareFinder) and the "
+              "routing invariant is proved through it (every_read_terminates_with_finder_partial), but the told/noMore link across "
+              "fetcher generations is not yet proved; that every get_block gets a terminal event (share.py) is an "
               "assumption, exercised end-to-end under fault schedules with a 'no read is stuck at quiescence' monitor.")
 LEVEL_NOTE = ("Lean kernel + standard axioms; decode / ciphertext-hash check are one atomic step of the model (as with the CPU "
               "thread pool disabled) — the production thread-pool interleaving of process_blocks is not modelled; liveness is "
@@ -386,6 +389,45 @@ def run(ctx):
     if ymodel is not None:
         ctx.compare("composed system script (real DownloadNode.read / Segmentation / SegmentFetcher, fake shares): calls, "
                     "queue, active fetcher, retirements and every read's state after every event", ycases, yimpl, ymodel)
+    # ---- composed system with the real ShareFinder (real DownloadNode + real ShareFinder + scripted servers)
+    zcases, zimpl, zlines = [], [], []
+    if ctx.replay:
+        c = ctx.replay.get("case") or ((ctx.replay.get("correspondence_disagreements") or [{}])[0].get("case")) or {}
+        if c.get("kind") == "sysf":
+            p = tuple(c["params"])
+            zcases.append(c)
+            zimpl.append(";".join(fc.replay_sysf_script(p, c["toks"])))
+            zlines.append(fc.sysf_line(p, c["toks"]))
+    else:
+        SYSF_CORPUS = [
+            ((1, 1, [], 8, 8, 8, 2, [0]), ["R:0:0:8", "l:0", "FL", "FL", "FR:0:0", "FL", "M", "l:0", "u", "s:0:0:C", "l:0", "d:0"]),
+            # every server fails / has nothing: the finder must announce no_more_shares and the read must fail, not hang
+            ((1, 1, [], 8, 8, 8, 1, [3, 5]), ["R:0:0:8", "l:0", "FL", "FL", "FE:0", "FL", "FL", "FR:1:-", "FL", "M", "l:0", "d:0"]),
+        ]
+        for (p, toks) in SYSF_CORPUS:
+            zcases.append({"kind": "sysf", "params": list(p), "toks": toks})
+            zimpl.append(";".join(fc.replay_sysf_script(p, toks)))
+            zlines.append(fc.sysf_line(p, toks))
+            ctx.case(("Z", repr(p), tuple(toks)))
+        for i in range(B(120, 4000)):
+            p, toks, digs, info = fc.gen_sysf_script(ctx.rng)
+            case = {"kind": "sysf", "params": list(p), "toks": toks}
+            zcases.append(case)
+            zimpl.append(";".join(digs))
+            zlines.append(fc.sysf_line(p, toks))
+            ctx.case(("Z", repr(p), tuple(toks)) if len(toks) > 4 else None)
+            for rid, r in info["reads"].items():
+                ctx.count("sysf-read:" + str(r["result"]))
+                if info["quiescent"] and info["outstanding"] == 0 and r["result"] is None and r["hungry"] and len(toks) < 260:
+                    ctx.violation("whole stack quiescent (no turn, no query in flight, no queued call, no block request "
+                                  "outstanding) but read %d neither completed nor failed (unhandled: %s)"
+                                  % (rid, info["unhandled"]), case, "read-stuck-composed-system-with-finder",
+                                  detail={"unhandled": info["unhandled"]})
+    zmodel = ctx.model(zlines) if zlines else None
+    if zmodel is not None:
+        ctx.compare("composed system with finder (real DownloadNode.read + SegmentFetcher + ShareFinder, scripted servers and "
+                    "fake shares): sys digest + finder calls/state + queued got_shares/no_more_shares after every event",
+                    zcases, zimpl, zmodel)
     smodel = ctx.model(slines) if slines else None
     if smodel is not None:
         ctx.compare("Segmentation script: calls (get_segment / write / cancel / callback / errback), _offset, _size, _alive, "
